@@ -107,8 +107,14 @@ def code_data_from_json(value: object) -> CodeData:
         value["blocks"] = tuple(
             tuple(instruction_from_json(i) for i in block) for block in value["blocks"]
         )
+    # The filename and docstring are arbitrary strings, so they are encoded like
+    # string constants
+    if "filename" in value:
+        value["filename"] = constant_value_from_json(value["filename"])
     if "type" in value:
         tp = copy(value["type"])
+        if "docstring" in tp:
+            tp["docstring"] = constant_value_from_json(tp["docstring"])
         if "args" in tp:
             tp["args"] = Args(**lists_values_to_tuples(tp["args"]))
         value["type"] = Function(**tp)
